@@ -1,6 +1,7 @@
 package main
 
 import (
+	"go/types"
 	"context"
 	"encoding/json"
 	"flag"
@@ -214,6 +215,7 @@ func runCheck(o *checkOpts) int {
 			e.fnByKey[fnKey(fn)] = fn
 		}
 	}
+	e.rebindClosures(specs)
 	if len(pkgs) > 0 {
 		e.fset = pkgs[0].Fset
 	}
@@ -258,6 +260,22 @@ func runCheck(o *checkOpts) int {
 	for _, c := range specs.Order {
 		if !c.Inline || (len(o.props) > 0 && !intersects(contractProps(c), o.props) && len(contractProps(c)) > 0) {
 			continue
+		}
+		// a tag on an invariant of an inlined block must be a property of the enclosing unit, otherwise the obligation
+		// would be generated under a property whose check never runs that unit
+		if i := strings.Index(c.Key(), "$"); i >= 0 {
+			if pc, ok := specs.Contracts[c.Key()[:i]]; ok {
+				for _, l := range c.Loops {
+					for _, inv := range l.Invs {
+						for _, p := range inv.Props {
+							if !contains(contractProps(pc), p) {
+								fmt.Fprintf(os.Stderr, "govc: specification error: %s: invariant %q is tagged %s, which is not a property of %s\n", c.Key(), inv.Label, p, pc.Key())
+								return 2
+							}
+						}
+					}
+				}
+			}
 		}
 		if e.fnByKey[c.Key()] == nil && strings.HasPrefix(c.Pkg, modulePath) && e.spkgs[c.Pkg] != nil {
 			u := &Unit{c: c, name: shortUnit(c), err: "binding: no function " + c.Key() + " in the current tree (inline contract)"}
@@ -1049,4 +1067,65 @@ func truncate(s string, n int) string {
 		return s[:n] + "…"
 	}
 	return s
+}
+
+// closureShape describes a function literal independently of its ordinal name: signature and number of loops.
+func closureShape(fn *ssa.Function) string {
+	return types.TypeString(fn.Signature, nil) + fmt.Sprintf(" loops=%d", len(findLoops(fn)))
+}
+
+// rebindClosures: function literals are named by ordinal (F$3$1), so adding or removing an unrelated literal in F
+// renumbers them. bindings.json records the shape of every literal under contract; a contract whose literal no
+// longer exists under its name is bound to the only literal of the same enclosing function with that shape that
+// has no contract of its own (noted as an assumption). Contracts, units and obligations keep the recorded name.
+func (e *Engine) rebindClosures(specs *Specs) {
+	if e.recBindings != nil {
+		m := map[string]string{}
+		for _, c := range specs.Order {
+			key := c.Key()
+			if i := strings.Index(key, "~"); i >= 0 {
+				key = key[:i]
+			}
+			if fn := e.fnByKey[key]; fn != nil && strings.Contains(key, "$") {
+				m[key] = closureShape(fn)
+			}
+		}
+		e.recBindings["$closures"] = m
+	}
+	shapes := e.bindings["$closures"]
+	if shapes == nil {
+		return
+	}
+	var missing []*Contract
+	for _, c := range specs.Order {
+		key := c.Key()
+		if strings.Contains(key, "~") || !strings.Contains(key, "$") || e.fnByKey[key] != nil || shapes[key] == "" {
+			continue
+		}
+		missing = append(missing, c)
+	}
+	taken := map[string]bool{}
+	for _, c := range missing {
+		key := c.Key()
+		parent := key[:strings.Index(key, "$")]
+		var cands []string
+		for k, fn := range e.fnByKey {
+			if !strings.HasPrefix(k, parent+"$") || taken[k] {
+				continue
+			}
+			if _, has := specs.Contracts[k]; has {
+				continue
+			}
+			if closureShape(fn) == shapes[key] {
+				cands = append(cands, k)
+			}
+		}
+		if len(cands) != 1 {
+			continue
+		}
+		taken[cands[0]] = true
+		e.fnByKey[key] = e.fnByKey[cands[0]]
+		specs.Contracts[cands[0]] = c
+		e.notes = append(e.notes, fmt.Sprintf("%s: the function literal %s no longer exists under that name; its contract is bound to %s, the only literal of %s with the recorded shape (%s)", shortUnit(c), key, cands[0], parent, shapes[key]))
+	}
 }
